@@ -48,6 +48,11 @@ enum Fault {
 	/// double fault: the send half fails (cause A); while the transport is still being closed the receive half fails
 	/// with another error (cause B); observers before and after B must all report one cause
 	SendThenRecvError,
+	/// pings are enabled and the write of a ping frame fails (the transport close is slow, observers arrive meanwhile)
+	PingSendError,
+	/// a subscribe call is answered with the id of a subscription that is open on this connection: the call must be
+	/// refused promptly (or the connection given up), it must not hang
+	DuplicateSubIdAnswer,
 	PeerClose,
 	NotJson,
 	JsonNoMessage,
@@ -162,9 +167,10 @@ async fn run_spec(spec: &Spec) -> Out {
 		jsonrpsee_core::verif::set_thread_hook(Some(hook));
 	}
 
-	let (client, mut srv) = client(ClientCfg { request_timeout: REQUEST_TIMEOUT, ..Default::default() });
+	let ping_interval = if spec.fault == Fault::PingSendError { Some(Duration::from_millis(4)) } else { None };
+	let (client, mut srv) = client(ClientCfg { request_timeout: REQUEST_TIMEOUT, ping_interval, ..Default::default() });
 	let close_gate = Arc::new(Notify::new());
-	let slow_close = spec.slow_close || spec.fault == Fault::SendThenRecvError;
+	let slow_close = spec.slow_close || matches!(spec.fault, Fault::SendThenRecvError | Fault::PingSendError);
 	if slow_close {
 		*srv.ctl.close_gate.lock().unwrap() = Some(close_gate.clone());
 	}
@@ -172,7 +178,7 @@ async fn run_spec(spec: &Spec) -> Out {
 
 	// an open stream
 	let mut stream_task = None;
-	if spec.open_stream || spec.fault == Fault::SendErrorOnUnsubscribe {
+	if spec.open_stream || matches!(spec.fault, Fault::SendErrorOnUnsubscribe | Fault::DuplicateSubIdAnswer) {
 		let c = client.clone();
 		let t = tokio::spawn(async move { c.subscribe::<Value, _>("sub", rpc_params!["stream"], "unsub").await });
 		if let Ok(Some((_, WireMsg::Single(q)))) = tokio::time::timeout(Duration::from_secs(5), srv.next_msg()).await {
@@ -278,6 +284,33 @@ async fn run_spec(spec: &Spec) -> Out {
 		Fault::RecvError => {
 			srv.push(ServerIn::Err(format!("receive failed {nonce}")));
 			Some(nonce.clone())
+		}
+		Fault::PingSendError => {
+			*srv.ctl.fail_ping.lock().unwrap() = Some(format!("ping failed {nonce}"));
+			// the next ping (every 4 ms) strikes
+			tokio::time::sleep(Duration::from_millis(6)).await;
+			Some(nonce.clone())
+		}
+		Fault::DuplicateSubIdAnswer => {
+			tasks.push(("dup-sub".into(), OpKind::Subscribe, false, tokio::spawn(run_op(client.clone(), OpKind::Subscribe, "dup-sub".into()))));
+			let mut answered = false;
+			for _ in 0..200 {
+				match tokio::time::timeout(Duration::from_millis(50), srv.next_msg()).await {
+					Ok(Some((_, WireMsg::Single(q)))) if q.tag.as_deref() == Some("dup-sub") => {
+						// the id of the stream that is open on this connection
+						srv.push_text(ok_response(q.id.as_ref().unwrap_or(&Value::Null), json!("stream-1")));
+						answered = true;
+						break;
+					}
+					Ok(Some((_, other))) => unanswered.push(other),
+					_ => break,
+				}
+			}
+			if !answered {
+				out.history.push("harness: the subscribe call of the duplicate-id scenario was not seen on the wire".into());
+			}
+			expect_dead = false;
+			None
 		}
 		Fault::PeerClose => {
 			srv.close_peer();
@@ -709,7 +742,9 @@ fn gen_spec(seed: u64, directed: Option<(Fault, bool, bool)>) -> Spec {
 	let (fault, slow_close, gate) = match directed {
 		Some(d) => d,
 		None => {
-			let f = match r.below(14) {
+			let f = match r.below(16) {
+				15 => Fault::DuplicateSubIdAnswer,
+				14 => Fault::PingSendError,
 				13 => Fault::SendThenRecvError,
 				12 => Fault::SendErrorOnUnsubscribe,
 				0 | 1 => Fault::SendError,
@@ -769,7 +804,7 @@ fn all_specs(seed: u64, n_random: u64) -> Vec<Spec> {
 	let mut v = Vec::new();
 	// fault enumeration: every fault kind x schedule variant x several histories
 	let mut faults: Vec<Fault> =
-		vec![Fault::SendError, Fault::SendThenRecvError, Fault::SendErrorOnUnsubscribe, Fault::RecvError, Fault::PeerClose, Fault::NotJson, Fault::JsonNoMessage, Fault::UnknownIdResponse, Fault::EmptyArray];
+		vec![Fault::SendError, Fault::SendThenRecvError, Fault::PingSendError, Fault::DuplicateSubIdAnswer, Fault::SendErrorOnUnsubscribe, Fault::RecvError, Fault::PeerClose, Fault::NotJson, Fault::JsonNoMessage, Fault::UnknownIdResponse, Fault::EmptyArray];
 	for ids in HOSTILE_IDS {
 		faults.push(Fault::BatchReplyIds(ids));
 	}
